@@ -43,6 +43,10 @@ func c01(c *Ctx) {
 	r.Rule("C01.buffer-exclusive", "the write buffer a message is built in belongs to one connection until the message ended: pooled buffers are taken and returned only by beginMessage/endMessage, put back once and never touched afterwards (same rules as C20.owners, C20.put-once, C20.no-use-after, C20.all-exits)")
 	c.borrow(c20, map[string]string{"C20.owners": "C01.buffer-exclusive", "C20.put-once": "C01.buffer-exclusive", "C20.no-use-after": "C01.buffer-exclusive", "C20.all-exits": "C01.buffer-exclusive", "C20.implicit-close": "C01.frames-whole"})
 	c.borrow(c19, map[string]string{"C19.payload-copy": "C01.buffer-exclusive", "C19.single-frame": "C01.buffer-exclusive", "C19.key-complete": "C01.buffer-exclusive"})
+	r.Rule("C01.no-stale-deadline", "the connection Dial returns carries no deadline left over from the handshake (HandshakeTimeout or the caller's context): otherwise a later read fails with a timeout and the echoed message is lost (same rule as C16.deadline-cleared)")
+	c.borrow(c16, map[string]string{"C16.deadline-cleared": "C01.no-stale-deadline"})
+	r.Rule("C01.control-timeout-harmless", "a WriteControl that gives up waiting for the connection has written nothing and does not record a write error, so the data messages sent afterwards are still accepted (same rule as C11.timeout-paths)")
+	c.borrow(c11, map[string]string{"C11.timeout-paths": "C01.control-timeout-harmless"})
 	r.Rule("C01.control-frames-readable", "control frames of every legal size between data frames are read and dispatched without disturbing the message (same rules as C08.read-buffer, C08.dispatch)")
 	c.borrow(c08, map[string]string{"C08.read-buffer": "C01.control-frames-readable", "C08.dispatch": "C01.control-frames-readable"})
 	r.Rule("C01.write-bounds", "class invariant of the message writer, by assume/guarantee over all writer methods: maxFrameHeaderSize <= w.pos <= len(writeBuf) and len(writeBuf) > maxFrameHeaderSize are established by newConn/beginMessage, preserved by every store to w.pos, and make every index/slice site of Write, WriteString, ReadFrom, ncopy, flushFrame, Close and the WriteMessage fast path in bounds for every payload size and chunking; ncopy grants 1 <= n <= min(max, room) so the Write loops make progress")
